@@ -91,17 +91,23 @@ def _optimize_operator_call_attr(  # pylint: disable=too-many-return-statements
             "is_not": (ast.IsNot, ast.NotEq),
         }.get(fn.attr)
         if isop is not None:
-            isoper, eqoper = isop
+            isoper, _ = isop
             arg1, arg2 = node.args
             assert len(node.args) == 2
-            oper = (
-                eqoper if any(_needs_eq_operator(arg) for arg in node.args) else isoper
-            )
-            return ast.Compare(arg1, [oper()], [arg2])
+            # `x is <literal>` is a SyntaxWarning in Python, and replacing it with
+            # `==` would change the meaning (1.0 == 1 but 1.0 is not 1): keep the
+            # call to the operator module for non-singleton literal operands.
+            if any(_needs_eq_operator(arg) for arg in node.args):
+                return node
+            return ast.Compare(arg1, [isoper()], [arg2])
 
         if fn.attr == "contains":
             arg1, arg2 = node.args
             assert len(node.args) == 2
+            # `b in a` evaluates `b` before `a`, the reverse of `contains(a, b)`:
+            # only safe if evaluating one of the operands cannot have an effect.
+            if not any(isinstance(arg, (ast.Constant, ast.Name)) for arg in node.args):
+                return node
             return ast.Compare(arg2, [ast.In()], [arg1])
 
         if fn.attr == "delitem":
